@@ -165,6 +165,135 @@ def gen_class_cases(ctx, n_random):
 
 
 # ---------------------------------------------------------------------------------------------
+# the raw marker: processingInstruction("Xalan", "raw") (FormatterListener::s_piTarget / s_piData) makes the NEXT
+# characters() / cdata() call write its text unescaped -- that one call only.  Scripts: marker, a raw event whose
+# text is a well-formed fragment with a known expansion, then ordinary text / CDATA events containing '<' and '&'
+# (inside the same element and in the next one), which must be escaped as if no marker had ever been seen.
+
+MARKER = ("P", base.u16("Xalan"), base.u16("raw"))
+RAW_FRAGMENTS = [   # (raw text, the events a parser reports for it)
+    (base.u16("plain"), [("T", base.u16("plain"))]),
+    (base.u16("a&amp;b&lt;c"), [("T", base.u16("a&b<c"))]),
+    (base.u16("<i/>"), [("S", base.u16("i"), []), ("E", base.u16("i"))]),
+    (base.u16("x<b k=\"1\">y</b>z"), [("T", base.u16("x")), ("S", base.u16("b"), [(base.u16("k"), base.u16("1"))]), ("T", base.u16("y")), ("E", base.u16("b")), ("T", base.u16("z"))]),
+    (base.u16("<!--c-->"), [("M", base.u16("c"))]),
+]
+AFTER_TEXTS = [base.u16("1<2&3"), base.u16("<&>"), base.u16("a]]>b&"), base.u16("&amp;"), base.u16("t"), [0x3C, 0xE9, 0x26], base.u16("x\ny<")]
+
+
+def has_marker(evs):
+    return any(e[0] == "P" and e[1] == MARKER[1] and e[2] == MARKER[2] for e in evs)
+
+
+def gen_marker_cases(ctx, n_random):
+    """returns (cls, enc, ver, evs, expected events)"""
+    r = ctx.rng
+    u16 = base.u16
+    out = []
+
+    def build(raw_kind, frag, afters, n_markers=1, gap=None):
+        evs = [("S", u16("r"), [])]
+        exp = [("S", u16("r"), [])]
+        evs += [MARKER] * n_markers
+        if gap == "comment":
+            evs.append(("M", u16("g")))
+            exp.append(("M", u16("g")))
+        elif gap == "element":
+            evs += [("S", u16("e"), []), ("E", u16("e"))]
+            exp += [("S", u16("e"), []), ("E", u16("e"))]
+        elif gap == "empty-text":
+            evs.append(("T", []))      # characters() with length 0 does not look at the flag
+        evs.append((raw_kind, frag[0]))
+        exp += frag[1]
+        for k, (kind, txt, wrap_el) in enumerate(afters):
+            if wrap_el:
+                evs += [("S", u16("c"), []), (kind, txt), ("E", u16("c"))]
+                exp += [("S", u16("c"), []), ("T", txt), ("E", u16("c"))]
+            else:
+                evs.append((kind, txt))
+                exp.append(("T", txt))
+        evs.append(("E", u16("r")))
+        exp.append(("E", u16("r")))
+        return evs, exp
+    encs = LEGACY_ENCODINGS
+    # systematic core: every raw kind x fragment x what follows (CDATA first: the seeded change C04_e lives there)
+    for enc in encs:
+        for ver in base.VERSIONS:
+            for raw_kind in ("T", "C"):
+                for fi, frag in enumerate(RAW_FRAGMENTS):
+                    a1 = AFTER_TEXTS[(fi + len(enc)) % len(AFTER_TEXTS)]
+                    a2 = AFTER_TEXTS[(fi + 3) % len(AFTER_TEXTS)]
+                    for afters in ([("C", a1, True), ("T", a2, False)], [("T", a1, True), ("C", a2, True)], [("C", a1, False)], [("T", a1, False)]):
+                        evs, exp = build(raw_kind, frag, afters)
+                        out.append(("marker:%s" % raw_kind, enc, ver, evs, exp))
+    for i in range(n_random):
+        enc, ver = r.choice(encs), r.choice(base.VERSIONS)
+        afters = [(r.choice("TC"), r.choice(AFTER_TEXTS), r.random() < 0.6) for _ in range(r.choice([1, 2, 3]))]
+        evs, exp = build(r.choice("TC"), r.choice(RAW_FRAGMENTS), afters, n_markers=r.choice([1, 1, 2]),
+                         gap=r.choice([None, None, "comment", "element", "empty-text"]))
+        if r.random() < 0.3:      # a second marker later in the document
+            evs2, exp2 = build(r.choice("TC"), r.choice(RAW_FRAGMENTS), [(r.choice("TC"), r.choice(AFTER_TEXTS), True)])
+            evs = evs[:-1] + [("S", u16("d"), [])] + evs2[1:-1] + [("E", u16("d"))] + evs[-1:]
+            exp = exp[:-1] + [("S", u16("d"), [])] + exp2[1:-1] + [("E", u16("d"))] + exp[-1:]
+        out.append(("markerN", enc, ver, evs, exp))
+    return out
+
+
+def evaluate_marker(ctx, cases, impl, model, stats):
+    """marker scripts: correspondence of BOTH serializers with their models, byte-exact; oracle: both outputs parse to
+    the expected tree (the raw fragment's expansion, everything after it escaped as usual) and agree"""
+    lines, meta = [], {}
+    for i, (cls, enc, ver, evs, exp) in enumerate(cases):
+        cid = "m%d" % (stats["n"] + i)
+        lines.append(base.script_line(cid, enc, ver, evs))
+        meta[cid] = (cls, enc, ver, evs, exp, lines[-1])
+    stats["n"] += len(cases)
+    rc_i, res_i, raw_i = core.run_lines_parallel(impl, lines)
+    rc_m, res_m, raw_m = core.run_lines_parallel(model, lines) if model else (0, {}, "")
+    corr, orc = [], []
+    if model and rc_m != 0:
+        corr.append({"case": "(process)", "impl": "", "model": "model driver exited with status %d: %s" % (rc_m, raw_m[-300:])})
+    for cid, (cls, enc, ver, evs, exp, line) in meta.items():
+        ctx.cov["evaluations"] += 1
+        ctx.count("legacy:" + cls.split(":")[0] + ":" + enc + ":" + ver)
+        ctx.count("class:" + cls)
+        ri = res_i.get(cid)
+        if ri is None or ri.count("|") < 3:
+            orc.append({"case": line, "what": "the driver died on this script (raw marker): %r" % (ri,), "known": None})
+            continue
+        new, newp, old, oldp = ri.split("|", 3)
+        expected = base.expected_tree(exp)
+        if model:
+            rm = res_m.get(cid)
+            ctx.cov["traces_validated_against_impl"] += 1
+            stats["corr"] += 1
+            stats["corr_marker"] = stats.get("corr_marker", 0) + 1
+            if rm is None or "|" not in rm:
+                corr.append({"case": line, "impl": old[:80], "model": "no result: %r" % (rm,)})
+            else:
+                ml, mu = rm.split("|", 1)
+                for which, mres, lib, tobytes in (("legacy", ml, old, lambda u: legacy_bytes(enc, u)), ("new", mu, new, lambda u: base.model_bytes(enc, u))):
+                    if mres.startswith("ok "):
+                        mb = tobytes(base.untok(mres[3:]))
+                        if mb is None or not lib.startswith("ok:") or bytes.fromhex(lib[3:]) != mb:
+                            corr.append({"case": line, "serializer": which, "impl": lib[:200], "model": "ok:" + (mb.hex()[:200] if mb is not None else "?")})
+                    else:
+                        corr.append({"case": line, "serializer": which, "impl": lib[:160], "model": mres[:160]})
+        for which, st, parsed in (("legacy FormatterToXML", old, oldp), ("new serializer", new, newp)):
+            what = None
+            if not st.startswith("ok:"):
+                what = "%s failed with %s on a script with the raw marker" % (which, st)
+            elif parsed.startswith("PARSEERR"):
+                what = "%s: the raw marker leaked: output is not well-formed (%s)" % (which, parsed[:160])
+            elif parsed != expected:
+                what = "%s: output with the raw marker parses to a different tree (only the event directly after the marker may be written raw):\n#     parsed   %s\n#     expected %s" % (
+                    which, parsed[:400], expected[:400])
+            if what:
+                orc.append({"case": line, "what": what, "known": None})
+        if old.startswith("ok:") and new.startswith("ok:") and oldp != newp:
+            orc.append({"case": line, "what": "the two serializers disagree on a script with the raw marker:\n#     legacy %s\n#     new    %s" % (oldp[:300], newp[:300]), "known": None})
+    return corr, orc
+
 
 ERRMAP = {"1": "SAXException", "3": "SAXException", "4": "XSLException"}
 
@@ -196,6 +325,8 @@ def evaluate(ctx, cases, impl, model, stats):
         # ---- correspondence: model vs FormatterToXML, byte for byte ----
         if model:
             rm = res_m.get(cid)
+            if rm is not None:
+                rm = rm.split("|", 1)[0]      # second field: the new serializer's model, marker scripts only
             ctx.cov["traces_validated_against_impl"] += 1
             stats["corr"] += 1
             if rm is None:
@@ -246,6 +377,21 @@ def evaluate(ctx, cases, impl, model, stats):
     return corr, orc
 
 
+def marker_corpus():
+    """corpus/C04/raw/*.txt: '<id> <enc> <ver> <script> => <expected script>' (not under corpus/C04/*.txt: the model of
+    the new serializer used by props/C04.py has no raw marker)"""
+    out = []
+    d = os.path.join(core.VERIF, "corpus", "C04", "raw")
+    for fn in sorted(os.listdir(d)) if os.path.isdir(d) else []:
+        for l in open(os.path.join(d, fn)):
+            if l.startswith("#") or "=>" not in l:
+                continue
+            a, b = l.split("=>", 1)
+            t = a.split()
+            out.append(("corpus:raw/" + fn, t[1], t[2], base.parse_script(t[3:]), base.parse_script(b.split())))
+    return out
+
+
 def run_part(ctx):
     ctx.assumptions += [
         "legacy: FormatterToXML's 512-unit staging buffer m_charBuf and the Writer below it are not modelled (flushes do not depend on "
@@ -253,7 +399,8 @@ def run_part(ctx):
         "-> byte n: checked byte for byte by the correspondence)",
         "legacy: input strings are NUL-terminated (the look-ahead 'i < end - 2' of writeNormalizedChars is unsigned and reads ch[i + 1], "
         "ch[i + 2] past a one-unit string) and contain no U+0000",
-        "legacy: no indentation, no DOCTYPE, m_stripCData / m_escapeCData / m_nextIsRaw false; m_newlineString = LF",
+        "legacy: no indentation, no DOCTYPE, m_stripCData / m_escapeCData false; m_newlineString = LF; the raw marker m_nextIsRaw is "
+        "modelled on both serializers (the new one through the wrapper coq/SerLegacyRawDefs.v around C04's event model)",
     ]
     proved = ctx.prove(["Properties_C04l.v"], ["GenSerLegacy"])
     if not load_flags():
@@ -286,6 +433,10 @@ def run_part(ctx):
     cases = corpus + gen_class_cases(ctx, n_cls) + gen
     stats = {"n": 0, "corr": 0, "corr_undecided": 0}
     corr, orc = evaluate(ctx, cases, impl, model, stats)
+    mcases = marker_corpus() + gen_marker_cases(ctx, 300 if not ctx.thorough else 6000)
+    c1, o1 = evaluate_marker(ctx, mcases, impl, model, stats)
+    corr += c1
+    orc += o1
     new = [o for o in orc if not (o["known"] and o["known"] in known)]
     if (corr or not proved or not model) and not new and not ctx.thorough:
         ctx.escalated = True
@@ -293,6 +444,9 @@ def run_part(ctx):
         c2, o2 = evaluate(ctx, more, impl, model, stats)
         corr += c2
         orc += o2
+        c3, o3 = evaluate_marker(ctx, gen_marker_cases(ctx, 6000), impl, model, stats)
+        corr += c3
+        orc += o3
         new = [o for o in orc if not (o["known"] and o["known"] in known)]
     hits = {}
     for o in orc:
